@@ -100,13 +100,32 @@ def program(draw, tier):
         from hgv import tsmodel as tm
         opts = {"cancel": True, "multi": True, "no_rewrite": True, "keys": draw(st.sampled_from([3, 5, 9]))}
         dscript = draw(tm.history(("TSD", "int", ("TS", "int")), start, horizon, opts, max_cycles=10 if big else 6))
+        if draw(st.booleans()):
+            # a burst of keys in one cycle, then sparse single-key events: several children hold pending alarms for different
+            # times while another child publishes
+            n0 = draw(st.integers(2, 6))
+            dscript = [[start, [{"k": "D", "ops": [["set", k, k] for k in range(1, n0 + 1)]}]]]
+            t_ = start
+            for _ in range(draw(st.integers(1, 4))):
+                t_ += draw(st.integers(1, 4))
+                if t_ >= end:
+                    break
+                k = draw(st.integers(1, n0 + 2))
+                dscript.append([t_, [{"k": "D", "ops": [["set", k, t_]] if draw(st.integers(0, 4)) or k > n0 else [["erase", k]]}]])
         stmts.append({"id": "dd", "op": "src", "schema": "TSD[int,TS[int]]", "script": dscript})
+        def child_timer(ins_):
+            # half of the child timers are 'settling' nodes: every input tick (re)arms one tagged alarm, and the node publishes
+            # only when that alarm fires - so its parent in a reduction tree is notified in alarm cycles only
+            if draw(st.booleans()):
+                return {"id": "t", "op": "node", "ins": ins_, "out": "TS[int]", "fn": "count", "valid": [], "log_inputs": False, "emit": "sched_now",
+                        "sched": {"tick": [["s", "rel", draw(st.integers(1, 6)), draw(st.sampled_from(["a", None]))]]}, "tags": gen.TAGS}
+            return draw(timer("t", ins_, horizon, start))
         if dyn == "map":
-            subs["F"] = {"params": ["TS[int]"], "names": ["x"], "out": "TS[int]", "ret": "t", "stmts": [draw(timer("t", [{"arg": 0}], horizon, start))]}
+            subs["F"] = {"params": ["TS[int]"], "names": ["x"], "out": "TS[int]", "ret": "t", "stmts": [child_timer([{"arg": 0}])]}
             stmts.append({"id": "dyn", "op": "op", "name": "map_", "args": [{"fn": "F"}, {"ts": "dd"}], "has_out": True})
         else:
             subs["C"] = {"params": ["TS[int]", "TS[int]"], "names": ["lhs", "rhs"], "out": "TS[int]", "ret": "t",
-                         "stmts": [draw(timer("t", [{"arg": 0}, {"arg": 1}], horizon, start))]}
+                         "stmts": [child_timer([{"arg": 0}, {"arg": 1}])]}
             stmts.append({"id": "dyn", "op": "op", "name": "reduce", "args": [{"fn": "C"}, {"ts": "dd"}], "has_out": True})
         stmts.append({"id": "drec", "op": "node", "ins": ["dyn"], "log_inputs": False, "valid": []})
     elif dyn == "switch":
